@@ -46,6 +46,22 @@ THEOREMS = [
     (M, "C10.summary_block", "a block: `locale:`, the ten keys in fixed order (rows with a non-zero column only; key left-aligned in 12, cells ' {:6}', blank for zero/missing), then changed*100 // (changed+unchanged+report+missing) of the last column, <= 100, 0 if nothing was counted"),
     (M, "C10.summaries_never_raise", "after any history through a list with >= 1 project observer over files whose locales are all str or all None, serializeSummaries returns"),
     (M, "C10.summaries_witness", "negation witnesses: no project observers + stats -> IndexError; a None locale next to a str locale -> TypeError"),
+    (M, "C10.three_way_decision", "the loop body of compareProjects calls add iff the localized file does not exist, else remove iff the reference does not exist, else compare; a localized file without reference path makes os.path.exists(None) raise TypeError"),
+    (M, "C10.projects_one_call_per_file", "when compareProjects returns, the ContentComparer methods it called are, in order, exactly one per tuple of list(ProjectFiles(locale, ...)) for the locales in sorted(all_locales), the method given by the two os.path.exists answers; reference File without locale, localized File with the loop's locale (REFERENCE_LOCALE for None), same module"),
+    (M, "C10.projects_refine_history", "everything compareProjects does to the observers is ObserverList.run of one event sequence: per remove call one obsoleteFile, per add call missingFile (+ the two updateStats calls, or one error for the reference, unless ignored / no parser), per compare call events about its two files; every project observer ends as if fed that history alone"),
+    (M, "C10.projects_file_events_once", "the missingFile/obsoleteFile notifications of a run are exactly one per add call / remove call, for the localized File of that call, in call order; compare raises none"),
+    (M, "C10.projects_summary_counts", "after compareProjects every summary number of the union observer and of every project observer is the count over the run's history of the non-ignored findings (existing summary theorems instantiated with compareProjects' event sequence; filters = the projects' filters, none in validation mode)"),
+    (M, "C10.handle_exit_iff", "whenever CompareLocales.handle returns, its value is 1 iff not return_zero and the union observer counted an error during compareProjects, iff some project observer did; else 0"),
+    (M, "C10.handle_report_blocks", "what handle prints and dumps: details iff non-empty, the 'Summaries for' header with one line per config path iff more than one config, the summaries; with --json - nothing but compareProjects' own prints; JSON data = one toJSON per project observer, to stdout iff '-'"),
+    (M, "C10.projects_validation", "None in locales: nothing but None (else TypeError), every project observer unfiltered, every localized File shows REFERENCE_LOCALE; otherwise the filters are the projects' filters and the locales those of all_locales"),
+    (M, "C10.projects_locale_order", "compareProjects gives the same result (observers, prints, calls, exception) for two locales arguments with the same members, whatever the order and repetitions"),
+    (M, "C10.projects_calls_per_file", "every ContentComparer call of a run is a function (mkCall) of its own enumerated tuple, the matchers of its locale and the two exists answers: module and fpath come from the first matcher matching THIS path, nothing carries over from earlier files"),
+    (M, "C10.composed_world_contract", "the composed pipeline model of ContentComparer.compare (C05) keeps the contract CompareRuns for all file contents: only error/warning/missingEntity/obsoleteEntity notifications for the localized file (or the one error of a failed readFile) and one updateStats without `errors`"),
+    (M, "C10.composed_exit_iff", "for the composed model (orchestration + pipeline), with no assumption on compare: handle returns 1 iff not return_zero and an error was counted by the union observer, iff by some project observer"),
+    (M, "C10.composed_refine_history", "for the composed model: a run of compareProjects is ObserverList.run of one history whose file notifications are exactly one per add/remove call and whose stats carry no `errors`"),
+    (M, "C10.projects_quiet_hides_only_details", "two runs of compareProjects differing only in quiet (q <= q') make the same calls and prints, end with the same summaries, error flags and exit status for the union and every project observer, and per path the details at q' are a sublist of those at q"),
+    (M, "C10.composed_world_quiet_blind", "the composed pipeline model of ContentComparer.compare raises the same events on two observer lists with the same filters (its control flow only reads return values of notify), for all file contents: the quiet theorem holds for the composed model without assumption"),
+    (M, "C10.extract_positionals_spec", "extract_positionals splits config_paths + [base] + locales at the first directory: configs = the non-empty prefix of existing files, base = abspath of that directory, locales = the rest or [None] with --validate; otherwise exactly one of the three parser.error messages"),
 ]
 PARTIAL = [
     "quiet_text_monotone is proved for the (file path, detail line) pairs and the displayed files; the literal claim 'the text lines at a "
@@ -54,18 +70,33 @@ PARTIAL = [
     "value rows are characterised recursively (getcontent_rec), not in closed form from the list of files",
     "serializeSummaries: the model rounds changed*100/total down with integer division; Python formats a float with %d (equal below 2^46 entries)",
     "the list's own details are covered through list_own_as_observer + details_spec / list_serialize_details_spec",
+    "orchestration layer: the theorems hold for every World (enumeration per locale, os.path.exists, parser facts); ContentComparer.compare "
+    "behind its getParser gate is an INPUT with the contract C10P.CompareRuns (a run of events about its two files, no missingFile/obsoleteFile, "
+    "no `errors` stats) — PROVED for the instance the driver runs (composed_world_contract: the pipeline model of C05, formats properties/ini/inc/po); "
+    "for DTD/Fluent/Android files the contract is an assumption (witness: a compare that raises missingFile breaks projects_file_events_once); "
+    "likewise projects_quiet_hides_only_details takes the contract C10P.CompareSync (compare is blind to everything but the filters), proved for "
+    "the composed model (composed_world_quiet_blind; witness: a compare that peeks at the details tree counts differently at two quiet levels)",
+    "handle: loading the configs (TOMLParser / EnumerateApp / set_locales(deep=True)) is an input of the model (the projects' filter and all_locales); "
+    "the JSON text (json.dump) and file I/O are outside, the data handed to json_dump is compared",
 ]
 TRUSTED = [
     "hand-written models CLModel/Compare/Tree.lean (Tree.__get/toJSON/getContent) and CLModel/Compare/Observer.lean "
     "(Observer/ObserverList notify, updateStats, serializeDetails, serializeSummaries, exit status), tied by the `tree`/`obs` correspondence",
     "Python dicts/defaultdicts modelled as insertion-ordered association lists, sets of return values as duplicate-free lists",
     "filters are pure functions File x entity -> {error, warning, ignore} (the contract of ProjectConfig.filter)",
+    "hand-written model CLModel/Compare/Projects.lean (compareProjects, ContentComparer.add/remove + the getParser gate of compare, handle, "
+    "extract_positionals, mozpath.relpath/abspath), tied by the `c10.handle`/`c10.pos`/`c10.rel` correspondence on generated project trees: "
+    "enumeration either as tables read off the real ProjectFiles objects or computed by the model of C13 (ProjectFilesM) from the pattern texts, "
+    "compare through the pipeline model of C05; literals (REFERENCE_LOCALE, printed lines, error messages) regenerated from the source (Gen/Cmd.lean)",
 ]
 ASSUMPTIONS = [
     "quiet is a non-negative integer (argparse count)",
     "text renderings: the data of error/warning notifications is a str, of missingEntity/obsoleteEntity a str or a tuple (TextData; what the callers pass)",
     "stats dicts use the eleven summary keys; an `errors` entry, which no caller passes, has a positive value (zero is probed separately)",
     "a File that has a module also has a locale (a None locale would become a None path segment)",
+    "orchestration layer: a filter sees a File through (file, module, locale) (fullpath is a function of these in a run; counted when not); "
+    "os.makedirs of a merge directory is the only OSError source modelled; file contents are in the formats of the pipeline model "
+    "(properties, ini, inc, po) or have no parser",
 ]
 LEVEL_TEXT = ("Lean 4 theorems over an executable transliteration of Tree, Observer, ObserverList and the exit-status expression: for ALL "
               "notification histories, filters and quiet levels the summaries equal the counts of non-ignored findings, details sit at "
@@ -75,12 +106,19 @@ LEVEL_TEXT = ("Lean 4 theorems over an executable transliteration of Tree, Obser
               "quiet only removes details, and exit=1 iff errors were counted and not return_zero; the model is tied to "
               "the Python by bounded-exhaustive + random differential runs, an independent oracle recomputes everything from the history "
               "(reading the printed details outline and the summary table back), and "
-              "whole-command runs over generated project trees tie commands.py")
+              "whole-command runs over generated project trees tie commands.py; the orchestration layer (compareProjects, ContentComparer.add/remove, "
+              "handle, extract_positionals) is modelled too: every enumerated file causes exactly one add/remove/compare, the run refines an event "
+              "history to which the summary/exit theorems apply end to end, validation mode disables every filter and shows REFERENCE_LOCALE, the "
+              "result does not depend on the order of the locales; tied by running the real handle and the model on generated project trees")
 LEVEL_NOTE = ("trusted: Lean kernel; hand-written model validated by correspondence (dict order, set semantics, string formatting); "
               "filters assumed pure with values error/warning/ignore; toJSON completeness needs prefix-free paths (negation witness: an "
               "interior value hides its subtree); exit theorem needs positive `errors` stats (witness: errors=0 sets the flag); text lines are "
-              "not monotone in quiet, only the (file, detail) pairs (witness); serializeDetails needs textual data (witness: TypeError)")
+              "not monotone in quiet, only the (file, detail) pairs (witness); serializeDetails needs textual data (witness: TypeError); "
+              "orchestration layer: ContentComparer.compare behind its getParser gate enters as an input with the contracts CompareRuns / "
+              "CompareSync, both proved for the composed pipeline model the driver runs (witnesses for both); config loading is an input")
 TECHNIQUE = "Lean 4 proof (radix-tree refinement, induction over histories) + differential correspondence + independent oracle + whole-command runs"
+
+EXTRA_FILES = ("compare_locales/compare/__init__.py", "compare_locales/compare/content.py")
 
 STATKEYS = ["errors", "warnings", "missing", "missing_w", "report", "obsolete", "changed", "changed_w",
             "unchanged", "unchanged_w", "keys"]
@@ -804,10 +842,873 @@ def oracle_command(spec, runs):
     return None
 
 
+
+# ------------------------------------------------------------------ the orchestration layer (compareProjects / handle)
+CP_LOCALES = ["de", "fr", "sr-Latn", "ja"]
+CP_DIRS = ["browser", "browser/sub", "toolkit", "mobile"]
+CP_KEYS = ["k1", "k2", "k3", "title", "accesskey.k1", "long.label"]
+CP_VALUES = ["value", "two words", "three little words", "a <b>bold</b> move", "x"]
+REFLOC = "en-x-moz-reference"
+
+
+def cp_render(ext, entries, junk=False):
+    """file text of a list of (key, value) for one of the generated formats"""
+    if ext == "properties":
+        body = "".join("%s = %s\n" % kv for kv in entries)
+        return body + ("junk line\n" if junk else "")
+    if ext == "ini":
+        return "[Strings]\n" + "".join("%s=%s\n" % kv for kv in entries) + ("junk\n" if junk else "")
+    if ext == "inc":
+        return "".join("#define %s %s\n" % (k.replace(".", "_"), v) for k, v in entries) + ("junk\n" if junk else "")
+    return "".join("%s: %s\n" % kv for kv in entries)       # .txt: no parser
+
+
+def gen_cp_spec(rng):
+    """a project tree + command line: 1-3 TOML configs over a reference tree `en/` and localizations `l10n/<loc>/`,
+    with by-construction knowledge of what is missing / obsolete / duplicated for the oracle"""
+    locales = rng.sample(CP_LOCALES, rng.randrange(1, 4))
+    nconf = rng.choice([1, 1, 2, 2, 3])
+    files = {}
+    ref = {}            # rel path under en/ -> {"ext", "entries", "junk"}
+    for d in CP_DIRS:
+        for name in ["a", "b"]:
+            if rng.random() < 0.55:
+                ext = rng.choice(["properties", "properties", "properties", "ini", "inc", "txt"])
+                keys = rng.sample(CP_KEYS, rng.randrange(1, 5))
+                entries = [(k, rng.choice(CP_VALUES)) for k in keys]
+                refdup = rng.random() < 0.06 and ext in ("properties", "ini")
+                if refdup:
+                    entries.append(entries[0])
+                ref["%s/%s.%s" % (d, name, ext)] = {"ext": ext, "entries": entries, "junk": rng.random() < 0.05 and ext != "txt",
+                                                    "dup": refdup}
+    if not ref:
+        ref["browser/a.properties"] = {"ext": "properties", "entries": [("k1", "value")], "junk": False, "dup": False}
+    for rel, r in ref.items():
+        files["en/" + rel] = cp_render(r["ext"], r["entries"], r["junk"])
+    l10n = {}           # (loc, rel) -> {"entries", "dups", "junk", "printf"}
+    for loc in locales:
+        for rel, r in ref.items():
+            x = rng.random()
+            if x < 0.22:
+                continue        # missing file
+            entries = []
+            for k, v in r["entries"]:
+                if rng.random() < 0.75 and k not in [e[0] for e in entries]:
+                    entries.append((k, v if rng.random() < 0.4 else "wert " + k))
+            for k in ["o1", "o2"]:
+                if rng.random() < 0.2:
+                    entries.append((k, "obsolet"))
+            dups = sorted({k for k, _ in entries if rng.random() < 0.15}) if r["ext"] in ("properties", "ini") else []
+            full = entries + [(k, "zwei") for k in dups]
+            junk = rng.random() < 0.06 and r["ext"] != "txt"
+            l10n[(loc, rel)] = {"entries": entries, "dups": dups, "junk": junk}
+            files["l10n/%s/%s" % (loc, rel)] = cp_render(r["ext"], full, junk)
+        for d in CP_DIRS:
+            if rng.random() < 0.2:
+                rel = "%s/gone.%s" % (d, rng.choice(["properties", "ini", "txt"]))
+                l10n[(loc, rel)] = {"entries": [("x", "y")], "dups": [], "junk": False}
+                files["l10n/%s/%s" % (loc, rel)] = cp_render(rel.rsplit(".", 1)[1], [("x", "y")])
+    # printf mismatches: checks raise errors/warnings the count oracle does not predict
+    checks = False
+    if rng.random() < 0.25:
+        cands = [(loc, rel) for (loc, rel) in l10n if rel in ref and ref[rel]["ext"] == "properties" and l10n[(loc, rel)]["entries"]]
+        if cands:
+            loc, rel = rng.choice(cands)
+            k = l10n[(loc, rel)]["entries"][0][0]
+            r = ref[rel]
+            r["entries"] = [(kk, "Hello %S and %S" if kk == k else vv) for kk, vv in r["entries"]]
+            files["en/" + rel] = cp_render(r["ext"], r["entries"], r["junk"])
+            le = l10n[(loc, rel)]
+            le["entries"] = [(kk, rng.choice(["Hallo %S", "Hallo %1$S %2$S %3$S", "Hallo"]) if kk == k else vv) for kk, vv in le["entries"]]
+            files["l10n/%s/%s" % (loc, rel)] = cp_render(r["ext"], le["entries"] + [(kk, "zwei") for kk in le["dups"]], le["junk"])
+            checks = True
+    # configs
+    use_define = rng.random() < 0.25
+    refroot = "{refdir}" if use_define else "en"
+    dir_sets = []
+    pool_dirs = ["browser", "toolkit", "mobile"]
+    for i in range(nconf):
+        if nconf == 1:
+            ds = [""] if rng.random() < 0.5 else rng.sample(pool_dirs, rng.randrange(1, 4))
+        else:
+            ds = rng.sample(pool_dirs, rng.randrange(1, 3))
+        dir_sets.append(ds)
+    configs = []
+    cfg_meta = []
+    for i, ds in enumerate(dir_sets):
+        clocs = [l for l in locales if rng.random() < 0.85] or [locales[0]]
+        lines = ['basepath = "."', "locales = [%s]" % ", ".join('"%s"' % l for l in clocs)]
+        env_l = rng.random() < 0.3
+        if env_l:
+            lines += ["[env]", '    l = "{l10n_base}/{locale}"']
+        lroot = "{l}" if env_l else "{l10n_base}/{locale}"
+        for d in ds:
+            sub = (d + "/") if d else ""
+            lines.append("[[paths]]")
+            lines.append('    reference = "%s/%s**"' % (refroot, sub))
+            lines.append('    l10n = "%s/%s**"' % (lroot, sub))
+            if rng.random() < 0.15:
+                lines.append('    test = ["android-dtd"]')
+        rules = []
+        for _ in range(rng.choice([0, 0, 1, 1, 2])):
+            rd = rng.choice(["browser/sub/", "toolkit/", "browser/", "mobile/"])
+            action = rng.choice(["ignore", "ignore", "warning", "error"])
+            key = rng.choice([None, None, "k1", "re:^k", "title"])
+            lines.append("[[filters]]")
+            lines.append('    path = "%s/%s**"' % (lroot, rd))
+            if key is not None:
+                lines.append('    key = "%s"' % key)
+            lines.append('    action = "%s"' % action)
+            rules.append({"dir": rd, "action": action, "key": key})
+        name = ["l10n.toml", "two.toml", "three.toml"][i]
+        files[name] = "\n".join(lines) + "\n"
+        configs.append(name)
+        cfg_meta.append({"dirs": ds, "locales": clocs, "rules": rules})
+    # command line
+    args = {"config_paths": list(configs), "l10n_base_dir": "l10n", "locales": [], "quiet": 0,
+            "defines": ["refdir=en"] if use_define else []}
+    r = rng.random()
+    if r < 0.45:
+        args["locales"] = rng.sample(locales, rng.randrange(1, len(locales) + 1))
+        if rng.random() < 0.15:
+            args["locales"].append("!" + "xx")          # a locale no project knows
+            args["locales"] = [x.lstrip("!") for x in args["locales"]]
+    if rng.random() < 0.3:
+        args["defines"] = args["defines"] + rng.sample(["foo=bar", "novalue", "a=b=c", "foo=again"], rng.randrange(1, 3))
+    args["json"] = rng.choice([None, None, "-", "out.json"])
+    args["return_zero"] = rng.random() < 0.3
+    args["full"] = rng.random() < 0.2
+    m = rng.random()
+    if m < 0.2:
+        args["merge"] = "merge"
+    elif m < 0.3:
+        files["blocked"] = "a regular file where the merge directory should go\n"
+        args["merge"] = "blocked"
+    if args.get("merge") and rng.random() < 0.12:
+        args["clobber"] = True
+    spec = {"files": files, "dirs": ["l10n"], "args": args, "relative": rng.random() < 0.2,
+            "meta": {"locales": locales, "ref": {k: {"ext": v["ext"], "keys": [e[0] for e in v["entries"]], "junk": v["junk"],
+                                                     "dup": v["dup"]} for k, v in ref.items()},
+                     "l10n": {"%s/%s" % k: {"keys": [e[0] for e in v["entries"]], "dups": v["dups"], "junk": v["junk"]}
+                              for k, v in l10n.items()},
+                     "configs": cfg_meta, "checks": checks}}
+    return spec
+
+
+
+def gen_cp_mix_spec(rng):
+    """a legacy l10n.ini project (path rules WITH a `module`) next to a TOML project (plain path rules), with plain
+    directories sorted before, between and after the module directories, so that module files and plain files
+    alternate in the enumeration of a locale"""
+    modules = rng.sample(["app", "browser/sub", "mobile"], rng.randrange(1, 4))
+    plain = rng.sample(["aaa", "m2", "zother"], rng.randrange(1, 4))
+    locales = rng.sample(["de", "fr"], rng.randrange(1, 3))
+    files = {"app/locales/l10n.ini": "[general]\ndepth = ../..\nall = app/locales/all-locales\n\n[compare]\ndirs = %s\n" % " ".join(modules),
+             "app/locales/all-locales": "".join(l + "\n" for l in locales)}
+    toml = ['basepath = "."', "locales = [%s]" % ", ".join('"%s"' % l for l in locales)]
+    for d in plain:
+        toml += ["[[paths]]", '    reference = "plainref/%s/**"' % d, '    l10n = "{l10n_base}/{locale}/%s/**"' % d]
+    files["l10n.toml"] = "\n".join(toml) + "\n"
+
+    def fill(refdir, l10ndir):
+        for name in ["a.properties", "b.properties", "sub/c.ini"]:
+            if rng.random() < 0.3:
+                continue
+            ini = name.endswith(".ini")
+            keys = rng.sample(["k1", "k2", "k3"], rng.randrange(1, 4))
+            files["%s/%s" % (refdir, name)] = cp_render("ini" if ini else "properties", [(k, "value " + k) for k in keys])
+            for loc in locales:
+                if rng.random() < 0.3:
+                    continue
+                lk = [k for k in keys if rng.random() < 0.7] + (["o1"] if rng.random() < 0.3 else [])
+                dup = lk[:1] if (lk and rng.random() < 0.25) else []
+                files["l10n/%s/%s/%s" % (loc, l10ndir, name)] = cp_render("ini" if ini else "properties",
+                                                                        [(k, "wert " + k) for k in lk + dup])
+        for loc in locales:
+            if rng.random() < 0.3:
+                files["l10n/%s/%s/gone.properties" % (loc, l10ndir)] = "x = y\n"
+
+    for m in modules:
+        fill("%s/locales/en-US" % m, m)
+    for d in plain:
+        fill("plainref/%s" % d, d)
+    cps = ["app/locales/l10n.ini", "l10n.toml"]
+    if rng.random() < 0.5:
+        cps.reverse()
+    return {"files": files, "dirs": ["l10n"], "meta": None, "tags": ["mix"],
+            "args": {"config_paths": cps, "l10n_base_dir": "l10n", "locales": [], "quiet": 0,
+                     "json": rng.choice([None, "out.json"]), "return_zero": rng.random() < 0.3}}
+
+
+def cp_single_specs(spec, joint):
+    """the single-file runs of a joint run: per ContentComparer call of the joint run a tree that holds, besides the
+    configuration, only the two files of that call, compared for that one locale"""
+    calls = joint["plain"]["calls"]
+    touched = set()
+    for kind, l10n, refp in calls:
+        touched.add(l10n[len("/R/"):])
+        if refp is not None:
+            touched.add(refp[len("/R/"):])
+    keep = {k: v for k, v in spec["files"].items() if k not in touched}
+    out = []
+    for kind, l10n, refp in calls:
+        rel = l10n[len("/R/"):]
+        parts = rel.split("/")
+        if parts[0] != spec["args"]["l10n_base_dir"] or len(parts) < 3:
+            return None
+        loc = parts[1]
+        files = dict(keep)
+        for pth in (rel, None if refp is None else refp[len("/R/"):]):
+            if pth is not None and pth in spec["files"]:
+                files[pth] = spec["files"][pth]
+        args = dict(spec["args"], locales=[loc], quiet=0, json=None, merge=None, clobber=False)
+        out.append((loc, l10n, dict(spec, files=files, args=args)))
+    return out
+
+
+def leaves_of(details):
+    return {"/".join(keys): items for keys, items in json_leaves(details)}
+
+
+def oracle_cp_independence(joint, singles):
+    """PER-FILE INDEPENDENCE: the details and the summaries of the joint run are the union / the sums of the runs over
+    one file at a time.  singles = [(locale, l10n path, result)]"""
+    jp = joint["plain"]
+    if "obs" not in jp:
+        return None
+    who = [("union", jp["list"])] + [("project %d" % i, o) for i, o in enumerate(jp["obs"])]
+    for wi, (name, jo) in enumerate(who):
+        want_leaves, want_sum = {}, {}
+        for loc, l10n, r in singles:
+            sp = r["plain"]
+            if "obs" not in sp:
+                return "the single-file run for %s ended with %s" % (l10n, sp["outcome"])
+            so = sp["list"] if wi == 0 else sp["obs"][wi - 1]
+            for path, items in leaves_of(so["details"]).items():
+                if path in want_leaves:
+                    return "two single-file runs show details for %s" % path
+                want_leaves[path] = items
+            for l, cs in so["summary"].items():
+                acc = want_sum.setdefault(l, {})
+                for k, v in cs.items():
+                    acc[k] = acc.get(k, 0) + v
+        got_leaves = leaves_of(jo["details"])
+        if got_leaves != want_leaves:
+            diff = sorted(set(got_leaves) ^ set(want_leaves)) or [k for k in got_leaves if got_leaves[k] != want_leaves[k]]
+            return "%s: the details of the joint run differ from the union of the single-file runs at %r (joint %r, single %r)" % (
+                name, diff[:4], {k: got_leaves.get(k) for k in diff[:2]}, {k: want_leaves.get(k) for k in diff[:2]})
+        gs = {l: {k: v for k, v in cs.items() if v} for l, cs in jo["summary"].items()}
+        ws = {l: {k: v for k, v in cs.items() if v} for l, cs in want_sum.items()}
+        gs = {l: cs for l, cs in gs.items() if cs}
+        ws = {l: cs for l, cs in ws.items() if cs}
+        if gs != ws:
+            return "%s: the summary of the joint run %r is not the sum of the single-file runs %r" % (name, gs, ws)
+    return None
+
+def cp_variants(rng, spec):
+    """the runs of one spec: quiet 0..4 with the same arguments, then validation mode, the locales in another order
+    (with a repetition), json to the other sink"""
+    out = []
+    for q in range(5):
+        out.append(("q%d" % q, dict(spec, args=dict(spec["args"], quiet=q))))
+    a = spec["args"]
+    out.append(("validate", dict(spec, args=dict(a, validate=True, merge=None if rng.random() < 0.8 else a.get("merge"),
+                                                 quiet=rng.randrange(3)))))
+    locs = list(a["locales"]) or list(spec["meta"]["locales"])
+    perm = list(reversed(locs)) + [locs[0]]
+    out.append(("perm", dict(spec, args=dict(a, locales=perm))))
+    if not a["locales"]:
+        out.append(("explicit", dict(spec, args=dict(a, locales=sorted(set(l for c in spec["meta"]["configs"] for l in c["locales"]))))))
+    return out
+
+
+def cp_error_specs(rng):
+    """command lines that end in parser.error / parser.exit / an exception"""
+    toml = 'basepath = "."\nlocales = ["de"]\n[[paths]]\n    reference = "en/**"\n    l10n = "{l10n_base}/{locale}/**"\n'
+    base = {"files": {"l10n.toml": toml, "en/a.properties": "k = v\n", "l10n/de/a.properties": "k = w\n"}, "dirs": ["l10n"]}
+    A = lambda **kw: dict({"config_paths": ["l10n.toml"], "l10n_base_dir": "l10n", "locales": [], "quiet": 0}, **kw)
+    specs = [
+        ("no-config", dict(base, args=A(config_paths=["l10n"], l10n_base_dir="l10n"))),
+        ("config-missing", dict(base, args=A(config_paths=["l10n.toml", "!nope.toml"]))),
+        ("no-base", dict(base, args=A(l10n_base_dir="!nowhere", locales=["de"]))),
+        ("bad-toml", dict(base, files=dict(base["files"], **{"l10n.toml": "basepath = \n"}), args=A())),
+        ("missing-include", dict(base, files=dict(base["files"], **{"l10n.toml": toml + '[[includes]]\n    path = "sub/none.toml"\n'}), args=A())),
+        ("none-and-str", dict(base, args=A())),      # run as is; the harness also probes compareProjects(locales=[None, "de"]) through the model examples
+        ("l10n-only-rule", dict(base, files=dict(base["files"], **{"l10n.toml": 'basepath = "."\nlocales = ["de"]\n[[paths]]\n    l10n = "{l10n_base}/{locale}/**"\n'}), args=A())),
+        ("validate-merge", dict(base, args=A(validate=True, merge="merge"))),
+        ("clobber", dict(base, args=A(merge="merge", clobber=True))),
+        ("second-dir-is-locale", dict(base, dirs=["l10n", "de"], args=A(locales=["de"]))),
+        ("ref-read-error", dict(base, files={k: v for k, v in base["files"].items() if k != "en/a.properties"},
+                                dirs=["l10n", "en/a.properties"], args=A(validate=True))),
+        ("l10n-is-directory", dict(base, files={k: v for k, v in base["files"].items() if k != "l10n/de/a.properties"},
+                                   dirs=["l10n", "l10n/de/a.properties"], args=A())),
+        # the reference is a directory: `p.readFile(ref_file)` raises inside `compare`; the error is raised for the
+        # reference File (locale None), which every project filter ignores
+        ("ref-is-directory", dict(base, files={k: v for k, v in base["files"].items() if k != "en/a.properties"},
+                                  dirs=["l10n", "en/a.properties"], args=A())),
+        # a dangling symbolic link in the reference tree is enumerated (os.walk lists it as a file) but does not exist:
+        # with the localized file missing `add` cannot read it, with the localized file present the file is "obsolete"
+        ("ref-dangling-symlink", dict(base, files=dict(base["files"], **{"l10n/de/x.properties": "k = w\n"}),
+                                      symlinks={"en/x.properties": "nowhere", "en/y.properties": "nowhere"}, args=A())),
+        ("ref-dangling-symlink-validate", dict(base, symlinks={"en/y.properties": "nowhere"}, args=A(validate=True))),
+        # clobber with a locale no project knows: no matchers, the set of merge matchers is empty
+        ("clobber-no-matchers", dict(base, args=A(merge="merge", clobber=True, locales=["xx"]))),
+        ("merge-blocked", dict(base, files=dict(base["files"], blocked="x\n"), args=A(merge="blocked"))),
+        ("merge-blocked-json", dict(base, files=dict(base["files"], blocked="x\n", **{"en/b.properties": "k = v\n"}),
+                                    args=A(merge="blocked", json="-"))),
+        ("base-is-file", dict(base, args=A(l10n_base_dir="l10n.toml"))),
+        # a key rule with action "warning": the missing entity is reported, not counted as missing
+        ("report-warning", dict(base, files={"l10n.toml": toml + '[[filters]]\n    path = "{l10n_base}/{locale}/**"\n    key = "re:^k"\n    action = "warning"\n',
+                                             "en/a.properties": "k1 = v\nk2 = w\nother = x\n", "l10n/de/a.properties": "k1 = v\n"}, args=A())),
+        # merge stage with a junk entry, a printf error (skipped entity) and missing entities in the localized file
+        ("merge-skips", dict(base, files={"l10n.toml": toml, "en/a.properties": "k1 = Hello %S\nk2 = two\nk3 = three\n",
+                                          "l10n/de/a.properties": "k1 = Hallo %d\njunk line\nk2 = zwei\n",
+                                          "en/b.ini": "[Strings]\nt=x\nu=y\n", "l10n/de/b.ini": "[Strings]\nt=x\n",
+                                          "en/c.inc": "#define a b\n", "l10n/de/c.inc": "#define a c\n#define z z\n"},
+                               args=A(merge="merge"))),
+        ("full-validate", dict(base, args=A(validate=True, full=True))),
+        ("full-locales", dict(base, args=A(full=True, locales=["fr"]))),
+    ] + cp_ini_specs(rng)
+    return specs
+
+
+def cp_ini_specs(rng):
+    """legacy l10n.ini projects (EnumerateApp): the path rules carry a `module`, the localized File is keyed by
+    locale + module + path below the module"""
+    ini = "[general]\ndepth = ../..\nall = app/locales/all-locales\n\n[compare]\ndirs = app browser/sub\n"
+    files = {"app/locales/l10n.ini": ini, "app/locales/all-locales": "de\nfr\n",
+             "app/locales/en-US/a.properties": "k1 = one\nk2 = two words\n",
+             "app/locales/en-US/chrome/b.properties": "k1 = one\n",
+             "browser/sub/locales/en-US/c.ini": "[Strings]\nt=x\n",
+             "l10n/de/app/a.properties": "k1 = eins\nk1 = zwei\no = x\n",
+             "l10n/de/app/gone.properties": "x = y\n",
+             "l10n/fr/browser/sub/c.ini": "[Strings]\nt=x\n"}
+    out = []
+    for name, extra in [("ini", {}), ("ini-locales", {"locales": ["fr"]}), ("ini-quiet-json", {"quiet": 1, "json": "-"}),
+                        ("ini-validate", {"validate": True}), ("ini-merge", {"merge": "merge"})]:
+        out.append((name, {"files": files, "dirs": ["l10n"],
+                           "args": dict({"config_paths": ["app/locales/l10n.ini"], "l10n_base_dir": "l10n", "locales": [], "quiet": 0}, **extra)}))
+    # an ini project next to a TOML project
+    toml = 'basepath = "."\nlocales = ["de"]\n[[paths]]\n    reference = "app/locales/en-US/**"\n    l10n = "{l10n_base}/{locale}/app/**"\n'
+    out.append(("ini+toml", {"files": dict(files, **{"l10n.toml": toml}), "dirs": ["l10n"],
+                             "args": {"config_paths": ["app/locales/l10n.ini", "l10n.toml"], "l10n_base_dir": "l10n", "locales": [], "quiet": 0}}))
+    return out
+
+
+def cp_semantics(spec, args):
+    """by construction, independent of the model and of the code: per project (config) and for the union, per locale, the
+    localized paths (relative to the l10n base) of the missing and of the obsolete files, and the files compared"""
+    meta = spec["meta"]
+    if args.get("validate"):
+        return None
+    explicit = [x for x in args["locales"]]
+    out = {"projects": [], "locales": None}
+    all_locs = sorted(set(explicit)) if explicit else sorted(set(l for c in meta["configs"] for l in c["locales"]))
+    out["locales"] = all_locs
+    for c in meta["configs"]:
+        per = {}
+        # --full with explicit locales: `config.set_locales(locales, deep=True)`
+        clocales = explicit if (args.get("full") and explicit) else c["locales"]
+        for loc in all_locs:
+            if loc not in clocales:
+                continue
+            missing, obsolete, compared = [], [], []
+
+            def covered(rel):
+                return any(d == "" or rel.startswith(d + "/") for d in c["dirs"])
+
+            def file_action(rel):
+                act = "error"
+                for r in c["rules"]:        # later rules win (reversed iteration in the code)
+                    if r["key"] is None and rel.startswith(r["dir"]):
+                        act = r["action"]
+                return act
+
+            for rel in meta["ref"]:
+                if covered(rel):
+                    if "%s/%s" % (loc, rel) in meta["l10n"]:
+                        compared.append(rel)
+                    else:
+                        missing.append(rel)
+            for key in meta["l10n"]:
+                l, rel = key.split("/", 1)
+                if l == loc and rel not in meta["ref"] and covered(rel):
+                    obsolete.append(rel)
+            per[loc] = {"missing": {rel: file_action(rel) for rel in missing}, "obsolete": {rel: file_action(rel) for rel in obsolete},
+                        "compared": compared}
+        out["projects"].append(per)
+    return out
+
+
+def oracle_cp_run(spec, args, res):
+    """one real run against what the tree was built to contain.  Returns None or a message."""
+    p = res["plain"]
+    out = p["outcome"]
+    rz = bool(args.get("return_zero"))
+    if not out.startswith("returned:"):
+        return None
+    rc = int(out.split(":")[1])
+    obs = p.get("obs") or []
+    lst = p.get("list")
+    if lst is None:
+        return "handle returned %d although compareProjects did not return its observers" % rc
+    # exit status = 1 iff not return_zero and an error was counted (by the union, equivalently by some project observer)
+    tot_union = sum(c.get("errors", 0) for c in lst["summary"].values())
+    tot_obs = sum(c.get("errors", 0) for o in obs for c in o["summary"].values())
+    want = 1 if (not rz and tot_union > 0) else 0
+    if rc != want:
+        return "exit status %d, expected %d (errors counted by the union observer: %d, return_zero=%r)" % (rc, want, tot_union, rz)
+    if (tot_union > 0) != (tot_obs > 0) and obs:
+        return "the union observer counted %d errors, the project observers %d" % (tot_union, tot_obs)
+    if lst["error"] != (tot_union > 0):
+        return "error flag %r with %d errors counted" % (lst["error"], tot_union)
+    # one observer per config; filters off exactly in validation mode
+    nconf = len(args["config_paths"])
+    if len(obs) != nconf:
+        return "%d project observers for %d configs" % (len(obs), nconf)
+    if any(f == bool(args.get("validate")) for f in p["filters"]):
+        return "filters of the project observers %r with validate=%r" % (p["filters"], bool(args.get("validate")))
+    if args.get("validate"):
+        # every localized File shows REFERENCE_LOCALE (a None locale can only come from an error raised for a reference File)
+        locs = set(k for o in obs + [lst] for k in o["summary"])
+        if locs - {REFLOC, ""}:
+            return "validation mode shows the locales %r" % sorted(locs)
+        for o in obs + [lst]:
+            stray = {k: v for k, v in o["summary"].get("", {}).items() if v and k != "errors"} if o["none_locale"] else {}
+            if stray:
+                return "validation mode: counters %r under the locale None (only an error raised for a reference File has no locale)" % stray
+        if any(c[0] == "compare" and c[1].endswith((".properties", ".ini", ".inc")) for c in p["calls"]) \
+                and not lst["none_locale"] and REFLOC not in lst["summary"]:
+            return "validation mode: files were compared but the summary has no entry for %s: %r" % (REFLOC, sorted(lst["summary"]))
+    # JSON: one toJSON per project observer, equal to the observers' own data; to stdout iff "-"
+    if args.get("json") is not None:
+        js = p.get("json")
+        if js is None or len(js) != nconf:
+            return "json data has %r entries for %d configs" % (None if js is None else len(js), nconf)
+        for j, o in zip(js, obs):
+            if j["summary"] != o["summary"] or j["details"] != o["details"]:
+                return "json entry differs from its observer"
+        if p["json_to_stdout"] != (args["json"] == "-"):
+            return "json written to %s for --json %r" % ("stdout" if p["json_to_stdout"] else "a file", args["json"])
+        if p["json_text_ok"] is not True:
+            return "the JSON text written does not parse back to the data"
+    elif p.get("json") is not None:
+        return "json data dumped without --json"
+    # printed text: with `--json -` nothing but what compareProjects printed; else the header iff more than one config
+    text = p["stdout"]
+    if args.get("json") == "-":
+        body = [l for l in text.split("\n") if l and not l.startswith(("copied reference to ", "adding to ", "clobbered "))]
+        if body:
+            return "--json - printed %r" % body[:3]
+    else:
+        has = "Summaries for\n" in text
+        if has != (nconf > 1):
+            return "'Summaries for' header %s with %d configs" % ("printed" if has else "missing", nconf)
+        if has:
+            i = text.index("Summaries for\n")
+            lines = text[i:].split("\n")[1:1 + nconf]
+            wantl = ["  " + (c.lstrip("!") if (spec.get("relative") or c.startswith("!")) else "/R/" + c) for c in args["config_paths"]]
+            if lines != wantl:
+                return "config lines %r, expected %r" % (lines, wantl)
+    # the missing / obsolete files, by construction
+    sem = cp_semantics(spec, args) if spec.get("meta") else None
+    if sem is not None and not args.get("quiet") and "l10n-only" not in spec.get("tags", ()):
+        for i, (per, o) in enumerate(zip(sem["projects"], obs)):
+            got_m, got_o = {}, {}
+            for keys, items in json_leaves(o["details"]):
+                path = "/".join(keys)
+                for it in items:
+                    if "missingFile" in it:
+                        got_m[path] = got_m.get(path, 0) + 1
+                    if "obsoleteFile" in it:
+                        got_o[path] = got_o.get(path, 0) + 1
+            want_m = {"%s/%s" % (loc, rel): 1 for loc, d in per.items() for rel, act in d["missing"].items() if act != "ignore"}
+            want_o = {"%s/%s" % (loc, rel): 1 for loc, d in per.items() for rel, act in d["obsolete"].items() if act != "ignore"}
+            if got_m != want_m:
+                return "project %d: missing files in the details %r, by construction %r" % (i, sorted(got_m.items()), sorted(want_m))
+            if got_o != want_o:
+                return "project %d: obsolete files in the details %r, by construction %r" % (i, sorted(got_o.items()), sorted(want_o))
+        # the union shows a file iff some project does, once
+        um, uo = {}, {}
+        for keys, items in json_leaves(lst["details"]):
+            path = "/".join(keys)
+            for it in items:
+                if "missingFile" in it:
+                    um[path] = um.get(path, 0) + 1
+                if "obsoleteFile" in it:
+                    uo[path] = uo.get(path, 0) + 1
+        wm = {"%s/%s" % (loc, rel): 1 for per in sem["projects"] for loc, d in per.items() for rel, act in d["missing"].items() if act != "ignore"}
+        wo = {"%s/%s" % (loc, rel): 1 for per in sem["projects"] for loc, d in per.items() for rel, act in d["obsolete"].items() if act != "ignore"}
+        if um != wm or uo != wo:
+            return "union: missing files %r / obsolete files %r, by construction %r / %r" % (sorted(um.items()), sorted(uo.items()), sorted(wm), sorted(wo))
+    # the calls: every enumerated file exactly one call, the method by the existence of the two files
+    if sem is not None:
+        seen = {}
+        for kind, l10n, refp in p["calls"]:
+            if l10n in seen:
+                return "two ContentComparer calls for %s" % l10n
+            seen[l10n] = kind
+        want_calls = {}
+        for per in sem["projects"]:
+            for loc, d in per.items():
+                for rel in d["missing"]:
+                    want_calls["/R/l10n/%s/%s" % (loc, rel)] = "add"
+                for rel in d["obsolete"]:
+                    want_calls["/R/l10n/%s/%s" % (loc, rel)] = "remove"
+                for rel in d["compared"]:
+                    want_calls["/R/l10n/%s/%s" % (loc, rel)] = "compare"
+        if seen != want_calls:
+            diff = sorted(set(seen.items()) ^ set(want_calls.items()))
+            return "ContentComparer calls differ from the tree: %r" % diff[:6]
+    # counts of missing strings: entities of the missing files + entities missing in compared files (plain trees only)
+    if sem is not None and not spec["meta"]["checks"]:
+        msg = oracle_cp_counts(spec, args, sem, obs)
+        if msg:
+            return msg
+    return None
+
+
+def oracle_cp_counts(spec, args, sem, obs):
+    """`missing`, `obsolete`, `errors`, `changed+unchanged+keys` of every project observer for trees without junk and
+    without key-specific filter rules, from the keys written into the files"""
+    meta = spec["meta"]
+    for i, (per, o, c) in enumerate(zip(sem["projects"], obs, meta["configs"])):
+        if any(r["key"] is not None or r["action"] == "warning" for r in c["rules"]):
+            continue
+        for loc, d in per.items():
+            want = {"missing": 0, "obsolete": 0, "errors": 0, "common": 0}
+            skip = False
+            for rel, act in d["missing"].items():
+                r = meta["ref"][rel]
+                if r["junk"] or r["dup"]:
+                    skip = True
+                # `add` counts the strings of a missing file unless ALL projects ignore the file; the count itself goes
+                # through `updateStats`, whose filter question (entity "") no file-level rule answers
+                anyone = any(per2.get(loc, {}).get("missing", {}).get(rel, "ignore") != "ignore" for per2 in sem["projects"])
+                if anyone and r["ext"] != "txt":
+                    want["missing"] += len(set(r["keys"]))
+            for rel in d["compared"]:
+                r, l = meta["ref"][rel], meta["l10n"]["%s/%s" % (loc, rel)]
+                if r["junk"] or l["junk"] or r["dup"]:
+                    skip = True
+                if r["ext"] == "txt":
+                    continue
+                # a rule without `key` only answers file-level questions: the entities of an existing file are counted
+                rk, lk = set(r["keys"]), set(l["keys"])
+                want["missing"] += len(rk - lk)
+                want["obsolete"] += len(lk - rk)
+                want["common"] += len(rk & lk)
+                want["errors"] += len(l["dups"])
+            if skip:
+                continue
+            got = o["summary"].get(loc, {})
+            g = {"missing": got.get("missing", 0), "obsolete": got.get("obsolete", 0), "errors": got.get("errors", 0),
+                 "common": got.get("changed", 0) + got.get("unchanged", 0) + got.get("keys", 0)}
+            if g != want:
+                return "project %d locale %s: counted %r, the files were written with %r" % (i, loc, g, want)
+    return None
+
+
+def oracle_cp_quiet(runs):
+    """quiet monotonicity on the real output: runs[q] for q = 0..4 with otherwise equal arguments"""
+    base = None
+    prev = None
+    for q in range(5):
+        p = runs[q]["plain"]
+        if not p["outcome"].startswith("returned:") or "obs" not in p:
+            return None
+        key = (p["outcome"], [o["summary"] for o in p["obs"]], p["list"]["summary"], p["list"]["error"])
+        if base is None:
+            base = key
+        elif key != base:
+            return "quiet=%d changes the exit status or a summary number: %r vs %r" % (q, key, base)
+        leaves = {}
+        for who, o in [("L", p["list"])] + [("O%d" % i, o) for i, o in enumerate(p["obs"])]:
+            for keys, items in json_leaves(o["details"]):
+                leaves[(who, "/".join(keys))] = items
+        if prev is not None:
+            for k, items in leaves.items():
+                if not is_sublist(items, prev.get(k, [])):
+                    return "quiet %d->%d: details of %s %s grew: %r vs %r" % (q - 1, q, k[0], k[1], prev.get(k), items)
+        prev = leaves
+        if q == 4 and any(leaves.values()):
+            return "quiet=4 still shows details: %r" % [k for k, v in leaves.items() if v][:3]
+    # the printed details: (file, detail line) pairs only shrink (read back only when no message spans several lines)
+    multiline = any("\n" in str(v) for q in range(5) for _, items in json_leaves(runs[q]["plain"]["list"]["details"])
+                    for it in items for v in it.values())
+    prevp = None
+    for q in range(0 if not multiline else 5, 5):
+        text = runs[q]["plain"]["stdout"]
+        cut = text.find("Summaries for\n")
+        lines = [l for l in text.split("\n") if not l.startswith(("copied reference to ", "adding to "))]
+        # the details block ends where the first summary block (`<locale>:` at column 0 followed by counters) starts
+        det = []
+        for l in lines:
+            if l == "" or l == "Summaries for" or (l.endswith(":") and not l.startswith(" ") and "/" not in l):
+                break
+            det.append(l)
+        rows, err = parse_outline("\n".join(det))
+        if err:
+            return "quiet=%d: printed details: %s" % (q, err)
+        pairs = [(path, d) for path, ds in rows for d in ds]
+        if prevp is not None and not is_sublist(pairs, prevp):
+            return "quiet %d->%d: printed (file, detail) pairs grew" % (q - 1, q)
+        prevp = pairs
+    return None
+
 # ------------------------------------------------------------------ run
 def finding_of(msg, case):
     return None
 
+
+
+def gen_rel_cases(rng, n):
+    segs = ["a", "b", "l10n", "de", "..", ".", "", "x.ftl", "ba"]
+    out = [["/", "/l/de/a.ftl", "/l"], ["/", "/l", "/l/"], ["/tmp", "x/../y//z", "."], ["/", "", "/l"], ["/tmp", "a", ""],
+           ["/", "//x/./y/..", "/"], ["/", "///x", "//x"], ["/", "/l/de/bar.ftl", "/l/de/ba"]]
+    for _ in range(n):
+        def path():
+            k = rng.randrange(0, 5)
+            body = "/".join(rng.choice(segs) for _ in range(k))
+            lead = rng.choice(["/", "/", "/", "", "//", "///"])
+            return lead + body + rng.choice(["", "", "/"])
+        out.append([rng.choice(["/", "/tmp"]), path(), path()])
+    return out
+
+
+def gen_pos_spec(rng):
+    names = ["l10n.toml", "two.toml", "dir1", "dir2", "nope", "de", "fr"]
+    files = {n: "x\n" for n in ["l10n.toml", "two.toml"] if rng.random() < 0.85}
+    dirs = [n for n in ["dir1", "dir2", "de"] if rng.random() < 0.75]
+    def arg():
+        n = rng.choice(names)
+        return n if (n in files or n in dirs) else "!" + n
+    k = rng.randrange(0, 4)
+    if rng.random() < 0.6:
+        cps = [rng.choice(sorted(files) or ["!nope"]) for _ in range(max(1, k))]
+    else:
+        cps = [arg() for _ in range(k)]
+    base = arg() if rng.random() < 0.3 else ("dir1" if "dir1" in dirs else "!dir1")
+    if rng.random() < 0.08:
+        base = "dir1/" if "dir1" in dirs else base
+    locs = [arg() for _ in range(rng.randrange(0, 3))]
+    return {"files": files, "dirs": dirs, "config_paths": cps, "base": base, "locales": locs,
+            "validate": rng.random() < 0.3, "relative": rng.random() < 0.4}
+
+
+def oracle_pos(spec, r):
+    """extract_positionals splits the arguments at the first directory"""
+    args, dirs, files, p = r["args"], set(r["dirs"]), set(r["files"]), r["plain"]
+    i = next((k for k, a in enumerate(args) if a in dirs), None)
+    if "usage" in p:
+        if p["usage"] is None:
+            return "SystemExit(%r) without a usage message" % (p.get("code"),)
+        if i == 0:
+            want = "no configuration file given"
+        else:
+            head = args[:i] if i is not None else args
+            bad = next((a for a in head if a not in files), None)
+            want = ("config file %s not found" % bad) if bad is not None else ("l10n-base-dir not found" if i is None else None)
+        if p["usage"] != want:
+            return "parser.error(%r), expected %r for the arguments %r (directories %r, files %r)" % (
+                p["usage"], want, args, sorted(dirs), sorted(files))
+        return None
+    if i is None or i == 0 or any(a not in files for a in args[:i]):
+        return "returned %r for the arguments %r (directories %r, files %r)" % (p, args, sorted(dirs), sorted(files))
+    want_locs = [None] if spec["validate"] else args[i + 1:]
+    if p["configs"] != args[:i] or p["locales"] != want_locs:
+        return "returned configs %r locales %r, expected %r %r" % (p["configs"], p["locales"], args[:i], want_locs)
+    b = args[i]
+    want_base = os.path.normpath(b if b.startswith("/") else "/R/" + b)
+    if p["base"] != want_base:
+        return "base %r, expected %r" % (p["base"], want_base)
+    return None
+
+
+def run_projects(ctx, out):
+    """correspondence + oracle for compareProjects / handle / extract_positionals / mozpath.relpath"""
+    # ---------------- mozpath.relpath / abspath
+    rng = ctx.rng("c10", "rel")
+    rels = gen_rel_cases(rng, ctx.n(400, 6000))
+    res = pool.pmap("impl.projects", "impl_rel", rels, timeout=5.0, batch=64)
+    model = C.run_driver_parallel(["c10.rel " + " ".join(C.enc(x) for x in c) for c in rels]) if ctx.model_ok else [None] * len(rels)
+    for c, r, mo in zip(rels, res, model):
+        out.evaluations += 1
+        if "r" not in r:
+            out.violations.append({"what": "mozpath.relpath raised %s" % r.get("exc"), "op": "rel", "input": {"args": c}, "finding": None})
+        elif mo is not None and mo != r["r"]:
+            out.disagreements.append({"op": "c10.rel", "args": c, "impl": r["r"], "model": mo})
+        else:
+            out.count("proj.rel." + ("dotdot" if "46.46" in r["r"] else "plain"))
+    # ---------------- extract_positionals
+    rng = ctx.rng("c10", "pos")
+    pspecs = [gen_pos_spec(rng) for _ in range(ctx.n(150, 2500))]
+    res = pool.pmap("impl.projects", "impl_pos", [[s] for s in pspecs], timeout=10.0, batch=16)
+    lines = [r["r"]["line"] for r in res if "r" in r]
+    model = iter(C.run_driver_parallel(lines) if ctx.model_ok else [None] * len(lines))
+    for spc, r in zip(pspecs, res):
+        out.evaluations += 1
+        if "r" not in r:
+            out.violations.append({"what": "extract_positionals: adapter raised %s: %s" % (r.get("exc"), r.get("msg")), "op": "pos",
+                                   "input": spc, "finding": None})
+            continue
+        r = r["r"]
+        mo = next(model)
+        bad = oracle_pos(spc, r)
+        if bad:
+            out.violations.append({"what": "extract_positionals: " + bad, "op": "pos", "input": spc, "finding": None})
+        elif mo is not None and mo != r["canon"]:
+            out.disagreements.append({"op": "c10.pos", "spec": spc, "impl": r["canon"], "model": mo})
+        else:
+            out.count("proj.pos." + ("usage" if "usage" in r["plain"] else "ok"))
+            out.nontrivial.add(("pos", r["canon"]))
+    # ---------------- handle / compareProjects
+    rng = ctx.rng("c10", "cp")
+    cases = []          # (group, variant name, spec)
+    for gi in range(ctx.n(36, 500)):
+        spec = gen_cp_spec(rng)
+        for name, sp in cp_variants(rng, spec):
+            cases.append((gi, name, sp))
+    nrandom = ctx.n(36, 500)
+    for mi in range(ctx.n(5, 60)):
+        spec = gen_cp_mix_spec(rng)
+        for name, sp in [("q%d" % q, dict(spec, args=dict(spec["args"], quiet=q))) for q in (0, 2, 4)] + \
+                [("validate", dict(spec, args=dict(spec["args"], validate=True))),
+                 ("explicit", dict(spec, args=dict(spec["args"], locales=["fr", "de", "fr"])))]:
+            cases.append((nrandom + mi, name, sp))
+    for name, sp in cp_error_specs(rng):
+        sp = dict(sp, meta=None, tags=[name])
+        cases.append((-1, name, sp))
+    res = pool.pmap("impl.projects", "run_handle", [[sp] for _, _, sp in cases], timeout=30.0, batch=4)
+    lines, owner = [], []
+    for ci, r in enumerate(res):
+        if "r" in r:
+            lines.append(r["r"]["tab"])
+            owner.append((ci, "tab"))
+            if r["r"]["pfm"] is not None:
+                lines.append(r["r"]["pfm"])
+                owner.append((ci, "pfm"))
+    model = C.run_driver_parallel(lines) if ctx.model_ok else [None] * len(lines)
+    by_case = {}
+    for (ci, kind), mo in zip(owner, model):
+        by_case.setdefault(ci, {})[kind] = mo
+    groups = {}
+    for ci, ((gi, name, sp), r) in enumerate(zip(cases, res)):
+        out.evaluations += 1
+        small = {"files": sp["files"], "dirs": sp.get("dirs", []), "args": sp["args"], "relative": sp.get("relative", False),
+                 "meta": sp.get("meta"), "tags": sp.get("tags", [])}
+        if "r" not in r:
+            out.violations.append({"what": "CompareLocales.handle: %s (%s) at %s" % (r.get("exc"), r.get("msg"), r.get("where")),
+                                   "op": "cp", "input": small, "finding": None})
+            continue
+        r = r["r"]
+        p = r["plain"]
+        kind = p["outcome"].split(":")[0]
+        bad = oracle_cp_run(sp, sp["args"], r)
+        if bad:
+            out.violations.append({"what": "compareProjects/handle (%s): %s" % (name, bad), "op": "cp", "input": small, "finding": None})
+            out.count("proj.cp.violations")
+            continue
+        groups.setdefault(gi, {})[name] = r
+        for k, mo in by_case.get(ci, {}).items():
+            if mo is None:
+                continue
+            if k == "pfm" and "raise:unsupported" in mo:
+                out.count("proj.cp.pfm.unsupported")
+                continue
+            canon = r["canon"]
+            if not p["env_known"]:      # no TOML config was parsed: the env handed to the parser cannot be observed
+                import re as _re
+                canon = _re.sub(r" \|env=[^ ]*", " |env=", canon)
+                mo = _re.sub(r" \|env=[^ ]*", " |env=", mo)
+            if mo != canon:
+                out.disagreements.append({"op": "c10.handle", "how": k, "variant": name, "input": small,
+                                          "impl": r["canon"][:1500], "model": mo[:1500]})
+            else:
+                out.count("proj.cp.%s.agree" % k)
+        out.count("proj.cp.outcome." + kind)
+        if p.get("exc"):
+            out.count("proj.cp.raise." + p["exc"]["exc"])
+        if "obs" in p:
+            out.count("proj.cp.observers=%d" % len(p["obs"]))
+            if len(p["obs"]) > 1 and any(o["summary"] for o in p["obs"]):
+                out.nontrivial.add(("cp", r["canon"][:4000]))
+        for k in ("add", "remove", "compare"):
+            n = sum(1 for c in p["calls"] if c[0] == k)
+            if n:
+                out.count("proj.cp.calls." + k, n)
+        if r["notes"].get("fullpath_not_function_of_file"):
+            out.count("proj.cp.fullpath_not_function_of_file")
+        if gi < 0:
+            import re as _re
+            out.contracts["cp_probe." + name] = _re.sub(r"t((?:\d+\.)*\d+)$", lambda m: "".join(chr(int(x)) for x in m.group(1).split(".")), p["outcome"])
+        if len(out.samples) < 10 and name == "q0" and "obs" in p and len(p["obs"]) > 1 and p["list"]["summary"]:
+            out.samples.append({"op": "cp", "args": sp["args"], "configs": {k: v for k, v in sp["files"].items() if k.endswith(".toml")},
+                                "outcome": p["outcome"], "stdout": p["stdout"][:1200]})
+    # per-file independence: the joint run against the runs over one file at a time (all mixed module/plain trees, a
+    # few of the random ones)
+    chosen = [gi for gi in sorted(groups) if gi >= nrandom][:ctx.n(5, 60)] + [gi for gi in sorted(groups) if 0 <= gi < nrandom][:ctx.n(2, 30)]
+    singles, sowner = [], []
+    for gi in chosen:
+        g = groups[gi]
+        if "q0" not in g or not g["q0"]["plain"]["outcome"].startswith("returned:"):
+            continue
+        spec = next(sp for (g2, name, sp) in cases if g2 == gi and name == "q0")
+        if spec["args"].get("full") or spec["args"].get("validate"):
+            continue
+        ss = cp_single_specs(spec, g["q0"])
+        if ss is None:
+            continue
+        for loc, l10n, sp1 in ss:
+            singles.append([sp1])
+            sowner.append((gi, loc, l10n))
+    sres = pool.pmap("impl.projects", "run_handle", singles, timeout=30.0, batch=4)
+    by_group = {}
+    for (gi, loc, l10n), r in zip(sowner, sres):
+        by_group.setdefault(gi, []).append((loc, l10n, r))
+    for gi, rs in by_group.items():
+        out.evaluations += len(rs)
+        spec = next(sp for (g2, name, sp) in cases if g2 == gi and name == "q0")
+        small = {"files": spec["files"], "dirs": spec.get("dirs", []), "args": spec["args"], "relative": spec.get("relative", False),
+                 "meta": spec.get("meta"), "tags": spec.get("tags", [])}
+        if any("r" not in r for _, _, r in rs):
+            out.violations.append({"what": "compareProjects/handle: a single-file run raised in the adapter", "op": "cp-indep",
+                                   "input": small, "finding": None})
+            continue
+        bad = oracle_cp_independence(groups[gi]["q0"], [(loc, l10n, r["r"]) for loc, l10n, r in rs])
+        if bad:
+            out.violations.append({"what": "compareProjects/handle, per-file independence: " + bad, "op": "cp-indep", "input": small,
+                                   "finding": None})
+        else:
+            out.count("proj.cp.independence_groups")
+            out.count("proj.cp.independence_single_runs", len(rs))
+            if "mix" in spec.get("tags", ()):
+                mods = sum(1 for c in groups[gi]["q0"]["canon"].split(" |calls=")[1].split(" |")[0].split(";") if c and c.split(",")[1] != "-")
+                out.count("proj.cp.mix.calls_with_module", mods)
+    # across the runs of one tree: quiet monotonicity, order of the locales
+    for gi, g in groups.items():
+        if gi < 0:
+            continue
+        spec = next(sp for (g2, name, sp) in cases if g2 == gi and name == "q0")
+        small = {"files": spec["files"], "dirs": spec.get("dirs", []), "args": spec["args"], "relative": spec.get("relative", False),
+                 "meta": spec.get("meta"), "tags": []}
+        if all(("q%d" % q) in g for q in range(5)):
+            bad = oracle_cp_quiet([g["q%d" % q] for q in range(5)])
+            if bad:
+                out.violations.append({"what": "compareProjects/handle: " + bad, "op": "cp-quiet", "input": small, "finding": None})
+                continue
+            out.count("proj.cp.quiet_groups")
+        if "perm" in g and "q0" in g:
+            a, b = g["q0"]["plain"], g["perm"]["plain"]
+            same = (a["outcome"] == b["outcome"] and a["stdout"] == b["stdout"] and a.get("json") == b.get("json")
+                    and a.get("obs") == b.get("obs"))
+            explicit = bool(spec["args"]["locales"])
+            # with no explicit locales the permuted run names them explicitly: only comparable when every config has every locale
+            if explicit and not same:
+                out.violations.append({"what": "compareProjects/handle: the order of the locales argument changes the result",
+                                       "op": "cp-perm", "input": small, "finding": None})
+            elif explicit:
+                out.count("proj.cp.perm_groups")
 
 def run(ctx):
     from impl import observer as I
@@ -951,6 +1852,7 @@ def run(ctx):
                 out.count("cmd.with_errors")
             if r0 and len(out.samples) < 7 and spec["expect"]["dups"] and len(spec["configs"]) == 2:
                 out.samples.append({"op": "cmd", "configs": spec["configs"], "rc": r0["rc"], "json": r0["json"]})
+    run_projects(ctx, out)
     return out
 
 
@@ -995,4 +1897,34 @@ def replay(payload):
                     except Exception as e:   # noqa
                         runs[(q, rz)] = {"exc": type(e).__name__, "msg": str(e)}
             res.append({"input": {"configs": i["configs"]}, "oracle": oracle_command(spec, runs)})
+        elif v.get("op") == "pos":
+            r = pool.pmap("impl.projects", "impl_pos", [[i]], timeout=30.0)[0]
+            res.append({"input": i, "oracle": oracle_pos(i, r["r"]) if "r" in r else "adapter raised %s" % r.get("exc")})
+        elif v.get("op") == "cp":
+            r = pool.pmap("impl.projects", "run_handle", [[i]], timeout=60.0)[0]
+            if "r" not in r:
+                res.append({"input": i["args"], "oracle": "CompareLocales.handle: %s (%s)" % (r.get("exc"), r.get("msg"))})
+            else:
+                res.append({"input": i["args"], "outcome": r["r"]["plain"]["outcome"],
+                            "oracle": oracle_cp_run(i, i["args"], r["r"]) if i.get("meta") else None})
+        elif v.get("op") == "cp-quiet":
+            rs = pool.pmap("impl.projects", "run_handle", [[dict(i, args=dict(i["args"], quiet=q))] for q in range(5)], timeout=60.0)
+            ok = all("r" in r for r in rs)
+            res.append({"input": i["args"], "oracle": oracle_cp_quiet([r["r"] for r in rs]) if ok else "a run raised"})
+        elif v.get("op") == "cp-indep":
+            j = pool.pmap("impl.projects", "run_handle", [[i]], timeout=60.0)[0]
+            if "r" not in j:
+                res.append({"input": i["args"], "oracle": "the joint run raised"})
+            else:
+                ss = cp_single_specs(i, j["r"]) or []
+                rs = pool.pmap("impl.projects", "run_handle", [[sp1] for _, _, sp1 in ss], timeout=60.0)
+                ok = all("r" in r for r in rs)
+                res.append({"input": i["args"], "oracle": oracle_cp_independence(j["r"], [(a, b, r["r"]) for (a, b, _), r in zip(ss, rs)])
+                            if ok else "a single-file run raised"})
+        elif v.get("op") == "cp-perm":
+            locs = list(i["args"]["locales"])
+            rs = pool.pmap("impl.projects", "run_handle", [[i], [dict(i, args=dict(i["args"], locales=list(reversed(locs)) + locs[:1]))]], timeout=60.0)
+            ok = all("r" in r for r in rs)
+            same = ok and all(rs[0]["r"]["plain"].get(k) == rs[1]["r"]["plain"].get(k) for k in ("outcome", "stdout", "json", "obs"))
+            res.append({"input": i["args"], "oracle": None if same else "the order of the locales argument changes the result"})
     return {"violates": any(r["oracle"] for r in res), "cases": res}
